@@ -890,6 +890,12 @@ def judge(chk, c, evs):
             th = max(th, kinks[si])
             omax = max(abs(m.off(ei, si, 0.0)), abs(m.off(ei, si - 1, 1.0)))
             jr = 0.0 if th <= 1e-6 else 1.3 * omax * math.tan(min(th, math.radians(100)) / 2) + math.hypot(p[0] - q[0], p[1] - q[1]) + 5 * tol
+            if jr > 0 and math.hypot(p[0] - q[0], p[1] - q[1]) > tol:
+                # centre curves whose ends lie apart and that are almost tangent to one another cross far from the joint: the trimmed /
+                # extended stretch (all of it hand-over) reaches to that crossing
+                z = m.centre_intersection(ei, si - 1)
+                if z is not None:
+                    jr = max(jr, max(math.hypot(z[0] - p[0], z[1] - p[1]), math.hypot(z[0] - q[0], z[1] - q[1])) + 5 * tol)
             jo.append((p, q, th, hwj, jr))
         if any(j[2] > math.radians(100) for j in jo):
             chk.cov('elements_skipped_sharp_joint')
@@ -1013,6 +1019,13 @@ def judge(chk, c, evs):
                     chk.cov('joints_ambiguous')
                     continue
                 zs = [z]
+                if tp[0].get('err', 0) != 0:
+                    # the search for the crossing of two side curves gave up somewhere on this path (code 3, reported): the sections are then
+                    # joined end to end without the corner between them, and the constructed crossing point of the centre curves - which is
+                    # on neither section - need not be covered.  Kinked joints are not probed on such paths (the inside / outside sampling
+                    # above still is applied along all sections)
+                    chk.cov('joints_not_probed_search_failed')
+                    continue
             else:
                 zs = [p, q]
             for z in zs:
